@@ -560,6 +560,7 @@ func init() {
 		r.importing = "C10"
 		checkCreateEvaluator(r, prog, a, nil, "c10") // every creation parses, once: acceptance is a function of (bytes, budget) only
 		checkRecoverDiscipline(r, prog, "c10")
+		checkRecordedErrorsNonNil(r, prog, "c10") // the budget error is put on the list as it was raised: a nil entry would make the handler itself panic
 		checkResultShape(r, prog, a, a.CreateEv, "c10")
 		r.importing = "C15"
 		checkErrorRecording(r, prog, "c15") // the budget error, once raised, is the error reported: nothing filters recorded errors
